@@ -454,9 +454,14 @@ def rule_c01(an, res):
                     if not okf:
                         continue
                     check_entities(res, prop, cm, roles, m, seg)
+                    from rules_seq import check_bind_dominated
+                    check_bind_dominated(res, prop, cm, roles, m, seg)
                     if roles.name == 'rr_cache' and seg.effs('PERM_WR'):
                         from rules_policy import check_perm_backptr
                         check_perm_backptr(res, prop, cm, roles, m, seg)
+                    if roles.name == 'rr_cache' and seg.effs('UNBIND'):
+                        from rules_policy import check_rr_remove
+                        check_rr_remove(res, prop, cm, roles, m, seg)
                     if roles.order is not None and k in ('INSERT', 'FIND', 'ERASE', 'CLEAN') and seg.effs('PART', 'BIND', 'UNBIND') and not has_partition_loops(seg):
                         sim = simulate(seg, roles)
                         bad = sim.integrity() if not sim.unknown else []
@@ -553,6 +558,11 @@ def check_lookup(res, prop, cm, roles, m, b):
     L = seg.L
     if present is True:
         live = not (cm.name in TTL_CACHES and found_expired(seg) is True)
+        if cm.name in TTL_CACHES and found_expired(seg) is None and y[0] == 'ctor' and y[2]:
+            res.ob('R-LOOKUP-PROV', ok=False)
+            V(res, prop, 'R-LOOKUP-PROV', cm, b.where, 'value reported without establishing that the write has not expired', site_of_seg(seg, m),
+              'path [%s] yields %s but never compares the entry\'s expiry with the call\'s clock sample: an expired (undone) write is reported' % (val, show(y)))
+            return
         if cm.name == 'ut_set':
             ok = (y == ('bool', True))
         elif live:
@@ -762,6 +772,9 @@ def rule_c08(an, res):
                     check_entities(res, prop, cm, roles, m, seg)
                     if roles.name == 'rr_cache' and seg.effs('PERM_WR'):
                         check_perm_backptr(res, prop, cm, roles, m, seg)
+                    if roles.name == 'rr_cache' and seg.effs('UNBIND'):
+                        from rules_policy import check_rr_remove
+                        check_rr_remove(res, prop, cm, roles, m, seg)
                     if roles.order is not None and k != 'CLEAR' and seg.effs('PART', 'BIND', 'UNBIND') and not has_partition_loops(seg):
                         sim = simulate(seg, roles)
                         bad = sim.integrity() if not sim.unknown else []
